@@ -241,8 +241,43 @@ fn strip_parens(src: &str, mut a: usize, mut b: usize) -> (usize, usize, &str) {
 //    former, "when a function was expected" must not mark a lambda;
 //  - "The definition of `a` references `b` ...": the excerpt is the right-hand side of a
 //    definition named `a`.
+// Strip white space and parentheses around a span, but only parentheses that match each other
+// (`(f x) (y)` keeps both).
+fn strip_matching_parens(src: &str, mut a: usize, mut b: usize) -> (usize, usize) {
+    loop {
+        let t = src[a..b].trim();
+        let off = src[a..b].find(t).unwrap_or(0);
+        a += off;
+        b = a + t.len();
+        if !(t.starts_with('(') && t.ends_with(')') && t.len() >= 2) {
+            return (a, b);
+        }
+        // does the first parenthesis close at the very end?
+        let mut depth = 0i64;
+        let mut closes_at_end = false;
+        for (i, c) in t.char_indices() {
+            match c {
+                '(' => depth += 1,
+                ')' => {
+                    depth -= 1;
+                    if depth == 0 {
+                        closes_at_end = i + 1 == t.len();
+                        break;
+                    }
+                }
+                _ => {}
+            }
+        }
+        if !closes_at_end {
+            return (a, b);
+        }
+        a += 1;
+        b -= 1;
+    }
+}
+
 fn paren_variants(src: &str, a: usize, b: usize) -> Vec<(usize, usize)> {
-    let (mut a, mut b, _) = strip_parens(src, a, b);
+    let (mut a, mut b) = strip_matching_parens(src, a, b);
     let mut v = vec![];
     loop {
         v.push((a, b));
@@ -416,7 +451,7 @@ fn check_type_fault(ctx: &mut Ctx, r: &mut Rng, idx: u64) {
                 let d15 = !ok
                     && defs.iter().filter(|(n, _)| n == name).any(|(_, id)| {
                         printed.span_of(*id).is_some_and(|s| {
-                            let (a0, b0, _) = strip_parens(src, s.start, s.end);
+                            let (a0, b0) = strip_matching_parens(src, s.start, s.end);
                             let inner = &src[a0..b0];
                             let a1 = a0 + (inner.len() - inner.trim_start_matches(|c: char| c == '(' || c.is_whitespace()).len());
                             let b1 = b0 - (inner.len() - inner.trim_end_matches(|c: char| c == ')' || c.is_whitespace()).len());
